@@ -203,6 +203,11 @@ def run_case(case) -> core.Outcome:
     if not (convgen.range_ok(c.sizes, mag, A, B, Cu) and convgen.range_ok(c.sizes, Fraction(mag) * Fraction(k), A, B, Cu)):
         out.inconclusive = "float-range"
         return out
+    if not (convgen.legs_ok(c.sizes, mag, A, B, A) and convgen.legs_ok(c.sizes, mag, A, Cu, B) and convgen.legs_ok(c.sizes, Fraction(mag) * Fraction(k), A, B)):
+        # some partial product of one of the chained conversions may pass through the subnormals
+        out.inconclusive = "float-range"
+        out.classes.append("float-range:partial-products")
+        return out
     ok = relations(out, m, A, B, Cu, mag, k, where, strict=not classes or gen == "pinned", tol_rt=tol_rt, tol_route=tol_route)
     if not det:
         # equal dimension but not linked by declarations (rad**2 vs rad**3): the round-trip /
@@ -243,6 +248,9 @@ def _run_syn(case) -> core.Outcome:
         if domain.pair_classes(A, B, m.One) or domain.pair_classes(A, Cu, m.One):
             continue
         if not (convgen.range_ok(sz, mag, A, B, Cu) and convgen.range_ok(sz, Fraction(mag) * Fraction(k), A, B, Cu)):
+            out.inconclusive = "float-range"
+            continue
+        if not (convgen.legs_ok(sz, mag, A, B, A) and convgen.legs_ok(sz, mag, A, Cu, B) and convgen.legs_ok(sz, Fraction(mag) * Fraction(k), A, B)):
             out.inconclusive = "float-range"
             continue
         deg = sum(domain.degree(u, m.One) for u in (A, B, Cu))
